@@ -26,10 +26,11 @@ def tour_job(arg):
     """one (workbook, pool, source, file types) graph: TLC + tours"""
     name, pool, src, fts, seed, max_viol = arg[:6]
     recalc = len(arg) > 6 and arg[6]
+    setlists = arg[7] if len(arg) > 7 else ()
     rnd = random.Random(seed)
     wb = W.WORKBOOKS[name]
     oracle = engine.Oracle(wb)
-    g = engine.gen_graph(name, wb, pool, src, recalc=recalc)
+    g = engine.gen_graph(name, wb, pool, src, recalc=recalc, setlists=setlists)
     out = dict(name=name, src=src, tlc=dict(
         run=f'Engine {name}/{src} pool={len(pool)} recalc={recalc}', distinct=g.tlc.distinct,
         generated=g.tlc.generated, depth=g.tlc.depth, wall_s=round(g.tlc.wall, 2)),
@@ -45,7 +46,8 @@ def tour_job(arg):
             return engine.RealModel(wb, src, workdir, file_type=ft)
 
         def on_step(model, s, act, spec_ret, t, hist):
-            status, got = model.do(act)
+            status, got = model.do(act, variant=rnd.choice(('str', 'list1', 'tuple1'))
+                                   if act['op'] == 'set_many' else 'str')
             inputs = {a: W.py_val(x) for a, x in g.states[t]['inp'].items()}
             out['cases'] += 1
             out['keys'].add(hash((name, src, ft, s, json.dumps(act, sort_keys=True))))
@@ -191,6 +193,8 @@ def run(tier, seed):
                              ('yml',) if src == 'Loaded' else ('-',), seed, 5))
         jobs.append(('cse', W.POOL_QUICK[:4], 'NoData', ('-',), seed, 5))
         jobs.append(('range', W.POOL_QUICK[:3], 'Stored', ('-',), seed, 5, True))
+        jobs.append(('range', [2], 'NoData', ('-',), seed, 5, False,
+                     [[('A1', 5), ('A2', True), ('A3', None)], [('A3', 'a'), ('A1', 0)]]))
     else:
         for name in W.WORKBOOKS:
             for src in ('NoData', 'Stored', 'Loaded'):
@@ -200,6 +204,11 @@ def run(tier, seed):
         for name in ('chain', 'alias', 'nested'):
             for src in ('NoData', 'Stored'):
                 jobs.append((name, W.POOL_FULL, src, ('-',), seed, 5))
+        jobs.append(('range', [2, None], 'Stored', ('-',), seed, 5, False,
+                     [[('A1', 5), ('A2', True), ('A3', None)], [('A3', 'a'), ('A1', 0)],
+                      [('A1', 2), ('A2', 2), ('A3', 2)]]))
+        jobs.append(('grid', [2], 'NoData', ('-',), seed, 5, False,
+                     [[('A1', 5), ('B1', None), ('A2', 'a')], [('A2', 0), ('A1', True)]]))
         for name in ('chain', 'range', 'alias', 'cse', 'trimex'):
             jobs.append((name, W.POOL_QUICK[:3], 'NoData', ('-',), seed, 5, True))
             jobs.append((name, W.POOL_QUICK[:3], 'Loaded', ('yml', 'pkl'), seed, 5, True))
